@@ -29,7 +29,8 @@ def check_C01(run):
     mc_factor(run, ["q", "c"], ["p"])          # (the largest configuration, "t", runs in C02's thorough tier: about 40 minutes)
     g = Gen(run.seed * 1000 + 1)
     types = QUICK_TYPES if run.tier == "quick" else FULL_TYPES
-    scen = merge(F.fam_gssv(g, "C01", sizes(run, 600, 5000), types), F.fam_gssv_big(g, "C01", sizes(run, 160, 1500), types))
+    scen = merge(F.fam_gssv(g, "C01", sizes(run, 600, 5000), types), F.fam_gssv_big(g, "C01", sizes(run, 160, 1500), types),
+                 F.fam_symrelax(g, "C01", sizes(run, 200, 2500), types, fns=("gssv",)))
     run.conform("gssv", scen, ["C01."])
     return run.finish(rule="random small dyadic systems through ?gssv (orders 1..8, five orderings, u in {1..1/16}, NC/NR, nrhs 0..3, lda >= n, random tuning); "
                            "non-trivial = accepted scenario whose trace was validated clause by clause")
@@ -106,6 +107,10 @@ def check_C06(run):
     for ty, k in plan.items():
         scen[ty] = [F.history_scenario(g, "C06-hist-%05d-%s" % (i, ty), ty, hists[i % len(hists)]) for i in range(k)]
     scen = merge(scen, F.fam_histgrow(g, "C06", sizes(run, 120, 1500), {"d": 1.0, "z": 0.4, "s": 0.3, "c": 0.2}))
+    # SymmetricMode histories: tree not postordered, relaxed supernodes chosen from the tree the first call returned
+    nontrivial = [h for h in hists if len(h) >= 2 and any(k[0] in ("SamePattern", "SPSRP", "SamePattern_SameRowPerm") for k in h)] or hists
+    for ty, k in ({"d": 70, "z": 30, "s": 25, "c": 25} if run.tier == "quick" else {"d": 800, "z": 400, "s": 300, "c": 300}).items():
+        scen = merge(scen, {ty: [F.history_scenario(g, "C06-histsym-%05d-%s" % (i, ty), ty, nontrivial[(i * 7) % len(nontrivial)], sym=True) for i in range(k)]})
     run.conform("hist", scen, ["C06.", "C05.", "C02.", "C03.", "C04."])
     return run.finish(rule="TLC enumerates every call history of length <= 4 over Fact modes x value changes that respects the documented preconditions (SluHist); each is executed on a generated pattern and every call is validated as a fresh factorization of that call's matrix",
                       exhaustive=(run.tier != "quick"))
@@ -119,6 +124,9 @@ def check_C10(run):
     g = Gen(run.seed * 1000 + 10)
     run.conform("order", F.fam_order(g, "C10", sizes(run, 500, 4000), exhaustive3=True), ["C10."])
     run.conform("orderbig", F.fam_order_big(g, "C10", sizes(run, 32, 300)), ["C10.", "C19.redzone", "C19.bad_free"], per_chunk=2)
+    # the tree the drivers hand back (and the factor routine receives as an input) is the same object: SymmetricMode on and off
+    tyd = {"d": 1.0, "z": 0.4, "s": 0.4, "c": 0.3}
+    run.conform("drivertree", merge(F.fam_symrelax(g, "C10", sizes(run, 120, 1500), tyd), F.fam_gssvx(g, "C10", sizes(run, 150, 1500), tyd)), ["C10."], tv_env={"MODE": "light"})
     if run.tier != "quick":
         g2 = Gen(run.seed * 1000 + 101)
         run.conform("order_i64", F.fam_order(g2, "C10", 2000), ["C10."], variant="v1")
@@ -302,16 +310,16 @@ def check_C18(run):
     g = Gen(run.seed * 1000 + 18)
     scen = {}
     tys = ["d", "z", "s", "c"]
-    reps = 1 if run.tier == "quick" else 6
+    reps = 3 if run.tier == "quick" else 12          # rep 0: the plainest member of every corruption class; later reps draw members and base calls
     for ty in tys:
         lst = []
         for rep in range(reps):
             for k, o in enumerate(objs):
                 fam = "screen" + o["routine"] + ("2" if len(o["corrupt"]) > 1 else "")
                 # pairs of corruptions: all of them in double precision, a quarter elsewhere (quick tier)
-                if len(o["corrupt"]) > 1 and run.tier == "quick" and ty != "d" and (k + "dzsc".index(ty)) % 4:
+                if len(o["corrupt"]) > 1 and run.tier == "quick" and (rep > 0 or (ty != "d" and (k + "dzsc".index(ty)) % 4)):
                     continue
-                lst.append(F.screen_scenario(g, "C18-%s-%04d%02d-%s" % (fam, k, rep, ty), ty, o["routine"], o["corrupt"], o["mode"]))
+                lst.append(F.screen_scenario(g, "C18-%s-%04d%02d-%s" % (fam, k, rep, ty), ty, o["routine"], o["corrupt"], o["mode"], plain=(rep == 0)))
             # the valid base calls themselves (accepted: nothing is demanded of them here)
         scen[ty] = lst
     run.conform("screen", scen, ["C18."])
@@ -373,7 +381,7 @@ def check_C07(run):
     g = Gen(run.seed * 1000 + 7)
     types = QUICK_TYPES if run.tier == "quick" else FULL_TYPES
     scen = merge(F.fam_storage(g, "C07", sizes(run, 100, 600), types), F.fam_storage(g, "C07", sizes(run, 50, 300), types, fn="gsisx"),
-                 F.fam_storage_dense(g, "C07", sizes(run, 120, 800), types))
+                 F.fam_storage_dense(g, "C07", sizes(run, 120, 800), types), F.fam_ilu_sizesweep(g, "C07", sizes(run, 36, 400), {"d": 1.0, "z": 0.6, "s": 0.6, "c": 0.5}))
     # vendor BLAS (the configuration the tests use): bit-for-bit on exact (D2) scenarios, structure always
     run.conform("storage", scen, ["C07."])
     # bundled C BLAS loops: bit-for-bit whatever the data
